@@ -19,7 +19,8 @@ CHECKS = {
                     "set, dump, per-vBucket store writes, failure re-mark) against the C05 monitors (completed save => every "
                     "position settled before it began is durable; failed save loses nothing; idle save writes nothing); found "
                     "F1 and F7, both repaired; monitors re-evaluated on real-code traces with acks at every gate of an "
-                    "in-flight save.",
+                    "in-flight save, incl. an acknowledgement caught inside the consumer's TrackOffset (between the position store and the "
+                    "dirty mark: AckBegin / AckMark) while a save takes the dirty set over.",
             "ref": "6/C05", "note": _A, "technique": "TLA+ model checking (TLC) + schedule replay on real code + TLC trace monitors"},
     "C06": {"text": "exhaustive TLC check of Core.tla against the C06 monitors (every delivered / tracked / dumped / stored "
                     "offset is one of the offsets legitimately issued for that vBucket, start<=seq<=end, uuid of the stream's "
@@ -69,7 +70,10 @@ CHECKS.update({
                     "instance. MemberSD.tla models the leader-assigned variant (service-discovery heart-beat and monitor loops of every instance on a "
                     "unit clock, lease acquisition and the election callbacks in any order, silent deaths): leader = 1, followers 2.. in join order; "
                     "its behaviours run on groups of real servicediscovery objects with their real 5-second loops under testing/synctest. "
-                    "MonMember.tla (TLC) judges the recorded announcements of both.",
+                    "MemberDyn.tla models the dynamic variant (an orchestrator tells each instance its numbering over the instance's API; the API "
+                    "announces it on the bus only when it differs; the discovery blocks until the first request and answers with the last): its "
+                    "behaviours run on real api.NewAPI servers over HTTP with a real bus and a real VBucketDiscovery per instance. "
+                    "MonMember.tla (TLC) judges the recorded announcements of all three.",
             "ref": "6/C10", "note": "real cbMembership + real client + gocbcore against a simulated node; time modelled by ageing documents on the "
                     "server; joins are atomic w.r.t. other instances (the property separates joins by quiet periods). Leader-assigned variant: the net/rpc transport "
                     "is replaced by direct calls into the peer's real rpc Handler, the Kubernetes lease is the environment. The static and dynamic "
@@ -120,7 +124,8 @@ CHECKS.update({
                     "repeatedly on the real AsyncOp and judged by MonAsync.tla. The behaviours without a racing deadline (server answers ok / answers "
                     "an error status / stays silent) are also executed on every REAL wrapper - GetVBucketSeqNos, GetFailOverLogs, OpenStream, "
                     "CloseStream, GetCollectionIDs of client.go; Get, Create/Update/DeleteDocument, Upsert/GetXattrs, CreatePath of doc_op.go - "
-                    "over real gocbcore agents against the simulated node, judged by the same monitor (no invented outcome, returned by the deadline). "
+                    "over real gocbcore agents against the simulated node, and on Load / Save / Clear of the Couchbase metadata backend (the document operations "
+                    "with the contexts and deadlines the library itself gives them), judged by the same monitor (no invented outcome, returned by the deadline). "
                     "Found F4 (GetVBucketSeqNos dropped the callback error); repaired; the wire runs report it on the code before the fix.",
             "ref": "6/C20", "note": "a silent server costs the wrappers of client.go their hard-coded 60 s: those cases run in the thorough tier only; "
                     "Ping and the agent bootstrap are not covered",
